@@ -23,7 +23,31 @@ import hydrorun
 TOL = 256.
 
 
+def gen_wall_impact(rng, i):
+    """Uniform gas running into a reflecting wall at Mach 1.0..1.48 (the property promises conservation up to 1.5).  In the
+    first step the state is uniform, so the reconstructed face states equal the cell states and the gas hits the wall with
+    exactly the Mach number of the initial state; only that first step is judged."""
+    gamma = rng.choice([1.4, 5. / 3., 2.])
+    ax = rng.randint(0, 2)
+    nsub = [rng.choice([1, 2]) for _ in range(3)]
+    ncell = [n * rng.choice([2, 4]) for n in nsub]
+    periodic = [rng.chance(0.5) for _ in range(3)]
+    periodic[ax] = False
+    T = 10 ** rng.uniform(1.5, 3.5)
+    kB, mp = 1.38064852e-23, 1.672621898e-27
+    a = (gamma * kB * T / mp) ** 0.5            # neutral hydrogen, mean molecular mass 1
+    mach = rng.uniform(1.0, 1.47)
+    v = [0., 0., 0.]
+    v[ax] = rng.choice([-1., 1.]) * mach * a
+    blocks = [dict(origin=[.5, .5, .5], sides=[1.001, 1.001, 1.001], density=10 ** rng.uniform(18, 21), temperature=T, velocity=v)]
+    cfg = dict(ncell=ncell, nsub=nsub, periodic=periodic, box=([0., 0., 0.], [1., 1., 1.]), blocks=blocks, gamma=gamma,
+               cfl=rng.choice([0.1, 0.2, 0.3]), total_time=1e-3, wall_impact_axis=ax, wall_impact_mach=mach)
+    return cfg, "wallimpact", rng.choice([1, 2, 4]), 2
+
+
 def gen(rng, i, quick):
+    if i % 6 == 5:
+        return gen_wall_impact(rng, i)
     nsub = [rng.choice([1, 1, 2, 2, 3, 4]) for _ in range(3)]
     while nsub[0] * nsub[1] * nsub[2] > 16:
         nsub[rng.randint(0, 2)] = 1
@@ -103,6 +127,13 @@ def one(job):
                 if allper:
                     checks = [("mass", "mass", S["mass"]), ("px", "px", S["mom"]), ("py", "py", S["mom"]), ("pz", "pz", S["mom"]), ("energy", "energy", S["energy"])]
                     st["steps_periodic_checked"] = st.get("steps_periodic_checked", 0) + 1
+                elif res["kind"] == "wallimpact":
+                    # judged only in the first step, where the state is uniform and the wall Mach number is exactly that of the
+                    # cells (measured from the dump, must stay below the property's 1.5)
+                    if rec["step"] == 1 and wm < 1.49 and prev["nonfinite"] == 0:
+                        checks = [("mass", "mass", S["mass"]), ("energy", "energy", S["energy"])]
+                        st["steps_wall_impact_checked"] = st.get("steps_wall_impact_checked", 0) + 1
+                        st["max_wall_mach_checked"] = max(st.get("max_wall_mach_checked", 0.), wm)
                 elif wm < 1.0:
                     checks = [("mass", "mass", S["mass"]), ("energy", "energy", S["energy"])]
                     # momentum along fully periodic axes is conserved as well? no: pressure on walls of other axes does not act along them,
@@ -164,7 +195,7 @@ def main():
             for key, text in res["viol"]:
                 chk.violation(key, text + " | " + label, rp)
             for k, v in res["st"].items():
-                tot[k] = max(tot.get(k, 0.), v) if k == "max_rel_drift" else tot.get(k, 0) + v
+                tot[k] = max(tot.get(k, 0.), v) if k in ("max_rel_drift", "max_wall_mach_checked") else tot.get(k, 0) + v
             kinds[res["kind"]] = kinds.get(res["kind"], 0) + 1
             if res["st"].get("steps_clamp_free"):
                 distinct.add(json.dumps(cfg, sort_keys=True))
@@ -180,11 +211,13 @@ def main():
     cov["monitor_counters"] = tot
     cov["state_kinds"] = kinds
     chk.assumptions += ["conservation is only asserted on steps whose positivity-clamp counter is zero (the property's proviso)",
-                        "reflective boxes: only mass and energy, and only while wall-adjacent cells have normal Mach < 1 (margin to 1.5)",
+                        "reflective boxes: only mass and energy, and only while wall-adjacent cells have normal Mach < 1 (margin to 1.5); "
+                        "wall-impact scenarios (uniform gas at Mach 1.0..1.48 towards a wall) are judged in their first step only, where the face states equal the cell states",
                         "round-off scale: 256 eps x (sum m, sum m(|v|+a), sum (E+PV)) over the states before and after the step"]
     if "--replay" not in sys.argv:
         chk.require_nonzero(steps_clamp_free=tot.get("steps_clamp_free"), periodic=tot.get("steps_periodic_checked"),
-                            reflective=tot.get("steps_reflective_checked"), clamp_steps_seen=tot.get("steps_with_clamp", 0) + 1)
+                            reflective=tot.get("steps_reflective_checked"), wall_impact=tot.get("steps_wall_impact_checked"),
+                            clamp_steps_seen=tot.get("steps_with_clamp", 0) + 1)
     chk.finish()
 
 
